@@ -1,0 +1,6 @@
+//go:build !verif
+// +build !verif
+
+package calendar
+
+func verifTrace(ev string, year int) {}
